@@ -20,6 +20,15 @@ if git apply $SRC/patch.diff 2>$WT/log.apply; then
   if cargo build --offline --no-default-features --features hashbrown,libm >$WT/log.nostd 2>&1; then patched_nostd=ok; fi
   if timeout 900 cargo test --offline --lib >$WT/log.lib 2>&1 && grep -q "73 passed" $WT/log.lib; then patched_tests=73ok; fi
   if timeout 900 cargo test --offline --test demo >$WT/log.demo 2>&1; then patched_demo=pass; else patched_demo=fail; fi
+  if [ $patched_demo = pass ]; then
+    # a change in code compiled only without `std`: the demo has to be run in the no_std configuration (HEAD must pass there too)
+    NS="--no-default-features --features hashbrown,libm"
+    if timeout 900 cargo test --offline --test demo $NS >$WT/log.demo_nostd 2>&1; then :; else
+      git apply -R $SRC/patch.diff
+      if timeout 900 cargo test --offline --test demo $NS >$WT/log.head_nostd 2>&1; then patched_demo="fail(no_std-config;head-passes-there)"; fi
+      git apply $SRC/patch.diff
+    fi
+  fi
 else
   patched_build=apply-failed
 fi
